@@ -278,8 +278,8 @@ func (g *tgen) mapVal(depth int) *TSpec {
 	case 4:
 		return PtrOf(g.structLike(depth + 1))
 	default:
-		if g.p.Cfg.ProtoArrays {
-			return g.packedSlice()
+		if g.p.ProtoMaps {
+			return g.packedSlice() // standard protobuf maps cannot hold repeated values
 		}
 		return g.slice(depth + 1)
 	}
